@@ -1486,6 +1486,8 @@ class Repository:
                     logger.info('Finished writing file %s', file_path)
                     with glock:
                         restore_path, metadata = files_metadata.pop(file_path)
+                    # The file may have existed before and been longer
+                    os.truncate(restore_path, files_sizes[file_path])
                     self.restore_metadata(restore_path, metadata)
                     finished_tracker.update()
 
@@ -1498,6 +1500,7 @@ class Repository:
         chunks_references = defaultdict(list)
         files_digests = {}
         files_metadata = {}
+        files_sizes = {}
         total_bytes = 0
 
         for snapshot_body in snapshots:
@@ -1535,6 +1538,7 @@ class Repository:
                     )
                     chunk_position += chunk_size
 
+                files_sizes[file_path] = chunk_position
                 total_bytes += chunk_position
 
         bytes_tracker = tqdm(
